@@ -25,6 +25,14 @@ Oracle after each injected failure (all observed from outside the code under tes
   * half of the histories flush one or two primary-key switches successfully *before* the
     failing flush: after rollback the object has its old key, ``Session.get(newkey)`` finds
     nothing and every identity-map entry holds an object under that object's own key;
+  * every third statement point is run once more with a session event listener
+    (after_rollback / after_soft_rollback / after_transaction_end) that raises once while the
+    failed flush is being handled, another third inside ``with session.begin():``; per history
+    a lifecycle listener (pending_to_persistent, persistent_to_deleted) raises at its first
+    call in the flush.  The same oracle applies.  No lifecycle listener is registered
+    otherwise: states are judged by predicates only (was_deleted must be False on what
+    the rollback made transient); half of the tails also contain successful flushes
+    (add + flush, delete + flush) before the failing one;
   * for faults inside a SAVEPOINT, alternate points recover the documented way instead:
     the savepoint is rolled back (must not raise), the in-transaction rows must equal the
     rows at savepoint creation, objects created inside it are transient, the enclosing
@@ -65,7 +73,8 @@ META = {
                 "observer_dumps_compared", "rollbacks_checked", "added_objects_checked_transient",
                 "deleted_objects_checked_persistent_again", "column_values_compared", "reruns_compared",
                 "commit_before_rollback_attempts", "savepoint_recoveries", "pk_switches_checked_after_rollback",
-                "identity_map_entries_audited"],
+                "identity_map_entries_audited", "listener_failures_during_failure_handling", "faults_inside_with_begin",
+                "faults_at_lifecycle_listeners"],
     "assumptions": ["the observer connection (separate sqlite3 connection) sees exactly the committed state"],
 }
 
@@ -126,6 +135,14 @@ def generate(ctx, R, zoo, tpl, rng, fams, nested):
                     op = g2.g_pk()
                     if op is not None and it.apply(op):
                         tail.append(op)
+            # ... and so may ordinary work: add + flush, delete + flush, all undone by the rollback
+            if rng.random() < 0.5:
+                g2.w.update({"flush": 22, "del": 24, "new": 30})
+                for _ in range(rng.randint(3, 8)):
+                    op = g2.step()
+                    if op is not None and it.apply(op):
+                        tail.append(op)
+                g2.w.update(TAIL_W)
             n2 = len(tail) + rng.randint(4, 14)
             cut = rng.randint(len(tail), n2 - 1) if nested else None
             for j in range(n2 * 2):
@@ -212,13 +229,21 @@ def touch_all(R, rig):
     return n
 
 
-def run_point(ctx, R, zoo, tpl, kd, prefix, tail, D_ok, point, kind, commit_first):
-    """One crash point.  point = ('stmt', i) | ('hook', j)."""
+LISTENERS = ("after_rollback", "after_soft_rollback", "after_transaction_end")
+LIFECYCLE = ("pending_to_persistent", "persistent_to_deleted")
+
+
+def run_point(ctx, R, zoo, tpl, kd, prefix, tail, D_ok, point, kind, commit_first, listener=None, ctxm=False):
+    """One crash point.  point = ('stmt', i) | ('hook', j) | ('life', lifecycle event name).
+    ``listener``: a session event listener that raises once while the failure is being handled;
+    ``ctxm``: the tail and its flush run inside ``with session.begin():``."""
     import sqlalchemy as sa
+    from sqlalchemy import event
 
     rig = R.Rig(zoo, tpl, ctx.tmppath(".db"), expire_on_commit=True)
     it = R.Interp(rig)
-    desc = {"prefix": prefix, "tail": tail, "point": list(point), "kind": kind, "commit_first": commit_first, **kd}
+    desc = {"prefix": prefix, "tail": tail, "point": list(point), "kind": kind, "commit_first": commit_first,
+            "listener": listener, "with_begin": ctxm, **kd}
     in_sp = ["nest"] in tail
 
     def vio(mech, summary, extra=None):
@@ -244,19 +269,25 @@ def run_point(ctx, R, zoo, tpl, kd, prefix, tail, D_ok, point, kind, commit_firs
             sp_frame["dump"] = rig.dump(rig.read_txn)
             sp_frame["nobjs"] = len(rig.objs)
 
-        try:
-            replay(it, tail, on_nest)
-        except (Diverged, sa.exc.SQLAlchemyError):
-            ctx.count("replays_diverged")
-            return
-        tail_deleted = [o for o in rig.objs[:base] if o in rig.session.deleted]
-        switched = [(o, pre_key[id(o)], sa.inspect(o).key) for o in rig.objs[:base]
-                    if pre_key.get(id(o)) is not None and sa.inspect(o).key is not None and sa.inspect(o).key != pre_key[id(o)]]
-        if switched:
-            ctx.count("points_with_flushed_pk_switch")
-        # ---- inject
-        mark = rig.spy.mark()
-        state = {"n": 0, "hit": False, "executed_before": 0}
+        state = {"n": 0, "hit": False, "executed_before": 0, "armed": False, "listener_fired": False}
+        info = {}
+
+        def second_failure(*a):
+            # a user listener that raises while the failed flush / rollback runs it (once)
+            if state["armed"] and state["hit"] and not state["listener_fired"]:
+                state["listener_fired"] = True
+                raise RuntimeError("injected: listener failed")
+
+        def lifecycle_failure(*a):
+            if state["armed"] and not state["hit"]:
+                state["hit"] = True
+                state["executed_before"] = len(rig.dml_since(info["mark"]))
+                raise RuntimeError("injected: lifecycle listener failed")
+
+        if listener:
+            event.listen(rig.session, listener, second_failure)
+        if point[0] == "life":
+            event.listen(rig.session, point[1], lifecycle_failure)
 
         def at_stmt(ev):
             if ev.kind in ("execute", "executemany") and R.is_dml(ev.sql):
@@ -274,31 +305,61 @@ def run_point(ctx, R, zoo, tpl, kd, prefix, tail, D_ok, point, kind, commit_firs
             if j == point[1] and not state["hit"]:
                 state["hit"] = True
                 state["hook"] = name
-                state["executed_before"] = len(rig.dml_since(mark))
+                state["executed_before"] = len(rig.dml_since(info["mark"]))
                 raise make_exc("runtime")
 
-        if point[0] == "stmt":
-            if kind == "operational-after":
-                rig.spy.after = at_stmt
-            else:
-                rig.spy.fault = at_stmt
-        else:
-            rig.hook_cb = at_hook
+        def attempt():
+            replay(it, tail, on_nest)
+            info["tail_deleted"] = [o for o in rig.objs[:base] if o in rig.session.deleted]
+            info["switched"] = [(o, pre_key[id(o)], sa.inspect(o).key) for o in rig.objs[:base]
+                                if pre_key.get(id(o)) is not None and sa.inspect(o).key is not None and sa.inspect(o).key != pre_key[id(o)]]
+            info["mark"] = rig.spy.mark()
+            if point[0] == "stmt":
+                if kind == "operational-after":
+                    rig.spy.after = at_stmt
+                else:
+                    rig.spy.fault = at_stmt
+            elif point[0] == "hook":
+                rig.hook_cb = at_hook
+            state["armed"] = True
+            try:
+                rig.session.flush()
+            finally:
+                rig.spy.fault = rig.spy.after = None
+                rig.hook_cb = None
+
         raised = None
         try:
-            rig.session.flush()
-        except Exception as e:   # the injected failure (possibly wrapped)
+            if ctxm:
+                with rig.session.begin():
+                    attempt()
+            else:
+                attempt()
+        except Diverged:
+            ctx.count("replays_diverged")
+            return
+        except Exception as e:   # the injected failure (possibly wrapped, or the listener's)
+            if not state["armed"]:
+                ctx.count("replays_diverged")
+                return
             raised = e
-        finally:
-            rig.spy.fault = rig.spy.after = None
-            rig.hook_cb = None
+        mark = info.get("mark", rig.spy.mark())
+        tail_deleted = info.get("tail_deleted", [])
+        switched = info.get("switched", [])
+        if switched:
+            ctx.count("points_with_flushed_pk_switch")
+        if listener and state["listener_fired"]:
+            ctx.count("listener_failures_during_failure_handling")
+            ctx.seen("listeners_failed", listener)
+        if ctxm:
+            ctx.count("faults_inside_with_begin")
         if not state["hit"] or raised is None:
             ctx.count("fault_points_not_reached" if not state["hit"] else "fault_swallowed")
             if state["hit"] and raised is None:
                 vio("flush-swallowed-injected-error", "flush returned normally although a statement/hook raised")
             return
         ctx.count("faults_injected")
-        ctx.count("faults_at_statements" if point[0] == "stmt" else "faults_at_hooks")
+        ctx.count({"stmt": "faults_at_statements", "hook": "faults_at_hooks", "life": "faults_at_lifecycle_listeners"}[point[0]])
         if in_sp:
             ctx.count("faults_inside_savepoint")
         ctx.seen("raised_types", type(raised).__name__)
@@ -312,7 +373,7 @@ def run_point(ctx, R, zoo, tpl, kd, prefix, tail, D_ok, point, kind, commit_firs
             return
         # ---- (S) inside a SAVEPOINT, alternate points recover the documented way: roll the
         # savepoint back and go on with the enclosing transaction, then commit it
-        if in_sp and not commit_first and sp_frame:
+        if in_sp and not commit_first and sp_frame and not listener:
             ctx.count("savepoint_recoveries")
             try:
                 rig.sp.pop().rollback()
@@ -388,6 +449,12 @@ def run_point(ctx, R, zoo, tpl, kd, prefix, tail, D_ok, point, kind, commit_firs
                 ctx.count("added_objects_checked_transient")
                 if k != "transient" or o in rig.session:
                     vio("added-object-not-transient-after-rollback", f"{type(o).__name__} slot {slot} added in the failed transaction is {k} after rollback", {"slot": slot})
+                elif st._deleted:
+                    # state predicates only (no lifecycle listener is registered on this session)
+                    vio("transient-object-keeps-deleted-flag-after-rollback", f"{type(o).__name__} slot {slot} was INSERTed and DELETEd in the rolled-back transaction; it is transient but inspect().was_deleted is still True", {"slot": slot})
+                elif not {kk for kk in st.dict if not kk.startswith("_")} and point[0] == "life":
+                    vio("failed-lifecycle-listener-wipes-transient-object", f"{type(o).__name__} slot {slot} is transient after rollback but its attributes are gone (expired through a stale identity-map entry)", {"slot": slot})
+                    return   # the identity map still holds that state: everything below only repeats it
             elif pre_kind.get(id(o)) == "persistent":
                 if any(o is x for x in tail_deleted):
                     ctx.count("deleted_objects_checked_persistent_again")
@@ -405,7 +472,12 @@ def run_point(ctx, R, zoo, tpl, kd, prefix, tail, D_ok, point, kind, commit_firs
             got = rig.session.get(newkey[0], newkey[1])
             if got is not None:
                 vio("get-answers-for-rolled-back-key", f"Session.get({newkey[0].__name__}, {newkey[1]}) returns {'the switched object itself' if got is o else 'an object'} after rollback; that row does not exist")
-        for key, obj in list(rig.session.identity_map.items()):
+        try:
+            entries = list(rig.session.identity_map.items())
+        except AssertionError:
+            vio("identity-map-holds-state-without-key", "identity_map.items() asserts: an entry belongs to a state whose key is None")
+            return
+        for key, obj in entries:
             ctx.count("identity_map_entries_audited")
             if sa.inspect(obj).key != key:
                 vio("identity-map-entry-under-foreign-key", f"identity_map[{key[1]}] is a {type(obj).__name__} whose own key is {sa.inspect(obj).key[1]}")
@@ -499,6 +571,16 @@ def run(ctx):
                         break
                     pn += 1
                     run_point(ctx, R, zoo, tpl, kd, prefix, tail, D_ok, ("stmt", i), kind, commit_first=bool(pn % 2))
+                    if (i + h) % 3 == 0:   # ... and a user listener fails while that failure is handled
+                        run_point(ctx, R, zoo, tpl, kd, prefix, tail, D_ok, ("stmt", i), kind, commit_first=bool(pn % 2),
+                                  listener=LISTENERS[(i + pn) % len(LISTENERS)])
+                    elif (i + h) % 3 == 1 and ["nest"] not in tail:
+                        run_point(ctx, R, zoo, tpl, kd, prefix, tail, D_ok, ("stmt", i), kind, commit_first=bool(pn % 2), ctxm=True,
+                                  listener=LISTENERS[0] if pn % 2 else None)
+            for name in LIFECYCLE:
+                if ctx.budget_ok():
+                    pn += 1
+                    run_point(ctx, R, zoo, tpl, kd, prefix, tail, D_ok, ("life", name), "runtime", commit_first=bool(pn % 2))
             for j in range(M):
                 if not ctx.budget_ok():
                     break
